@@ -78,7 +78,9 @@ class Prop(core.Prop):
                 'ioapi': 'gridded ioapi_base files TSTEP<=4 x LAY,ROW,COL<=2; 1-2 selected dimensions',
                 'max_dims_selected': 2 if tier == 'quick' else 3,
                 'selectors_per_axis(n=3)': len(selectors(3, tier)),
-                'keyword_orders': 'both for pairs'}
+                'keyword_orders': 'both for pairs',
+                'zipped_plus_third_selector': 'two zipped lists x 8 selectors on the remaining dimension x 3 keyword orders',
+                'slice_dim_string_form': 'start, stop in {None, -n-1..n+1} x step in {None, 1, 2, -1, -2}, and the one-number form'}
 
     def groups(self, tier):
         b = self.bounds(tier)
@@ -93,6 +95,19 @@ class Prop(core.Prop):
                         for r in range(1, b['max_dims_selected'] + 1):
                             for sub in itertools.combinations(dims, r):
                                 yield {'file': frec, 'dims': list(sub)}
+        # two zipped index lists together with a slice or an integer on the third dimension
+        # (in the thorough tier this is part of the 3-dimension product)
+        if b['max_dims_selected'] < 3:
+            for unl in (False, True):
+                frec = {'lens': {'t': 3, 'z': 2, 'x': 3}, 'unl': unl, 'kinds': b['kinds'][0]}
+                for other in ('t', 'z', 'x'):
+                    yield {'file': frec, 'zip3': other}
+        # the functional string form slice_dim(f, 'dim,start[,stop[,step]]')
+        for nt, nx in ((1, 1), (2, 3), (3, 4)):
+            for unl in (False, True):
+                frec = {'lens': {'t': nt, 'z': 2, 'x': nx}, 'unl': unl, 'kinds': b['kinds'][0]}
+                for d in ('t', 'z', 'x'):
+                    yield {'file': frec, 'slice_dim': d}
         from .. import ioapi_u
         idims = ['TSTEP', 'LAY', 'ROW', 'COL']
         for nt, nl, nr, nc, start in ((4, 2, 2, 2, 0), (1, 1, 1, 1, 1), (3, 2, 1, 2, 2)):
@@ -112,6 +127,34 @@ class Prop(core.Prop):
                 yield {'ioapi': rec, 'sel': [[d, list(s)] for d, s in zip(group['dims'], combo)]}
             return
         lens = group['file']['lens']
+        if 'zip3' in group:
+            o = group['zip3']
+            zd = [d for d in ('t', 'z', 'x') if d != o]
+            n0, n1 = lens[zd[0]], lens[zd[1]]
+            lists = [([0, 1], [1, 0]), ([0, 0], [0, 1]), ([-1, 0], [0, -1]), ([1], [0]),
+                     ([0, 1, 1], [1, 1, 0])]
+            others = [('s', None, None, None), ('s', 1, None, None), ('s', None, None, -1), ('s', 0, 1, None),
+                      ('s', None, None, 2), ('i', 0), ('i', -1), ('I', 1)]
+            for la, lb in lists:
+                if max(max(la), -min(la) - 1) >= n0 or max(max(lb), -min(lb) - 1) >= n1:
+                    continue
+                for osel in others:
+                    if osel[0] in 'iI' and not -lens[o] <= osel[1] < lens[o]:
+                        continue
+                    sel = {o: list(osel), zd[0]: ['l', la], zd[1]: ['l', lb]}
+                    for order in (('t', 'z', 'x'), ('x', 'z', 't'), (o, zd[1], zd[0])):
+                        yield {'file': group['file'], 'sel': [[d, sel[d]] for d in order]}
+            return
+        if 'slice_dim' in group:
+            n = lens[group['slice_dim']]
+            rng = [None] + list(range(-n - 1, n + 2))
+            for a in rng:
+                if a is not None:
+                    yield {'file': group['file'], 'slice_dim': group['slice_dim'], 'args': [a]}
+                for b_ in rng:
+                    for st in (None, 1, 2, -1, -2):
+                        yield {'file': group['file'], 'slice_dim': group['slice_dim'], 'args': [a, b_, st]}
+            return
         axes = [selectors(lens[d], self.tier) for d in group['dims']]
         for combo in itertools.product(*axes):
             sel = [[d, list(s)] for d, s in zip(group['dims'], combo)]
@@ -119,7 +162,45 @@ class Prop(core.Prop):
             if len(sel) == 2:
                 yield {'file': group['file'], 'sel': sel[::-1]}
 
+    def run_slice_dim(self, case):
+        from PseudoNetCDF.core._functions import slice_dim
+        real = lib.to_real(rfile.ufile(case['file']))
+        rf = lib.snap(real, cls='PseudoNetCDFFile')
+        d, args = case['slice_dim'], case['args']
+        if len(args) == 1:
+            a, b_, st = args[0], args[0] + 1, None      # documented: a single number is one index
+        else:
+            a, b_, st = args
+        text = ','.join([d] + [repr(x) for x in (args if len(args) == 1 else (a, b_, st))])
+        exp = rops.rslice(rf, OrderedDict([(d, ('s', a, b_, st))]))
+        before = rfile.canon(rf)
+        sig = ('slice_dim', 'neg-step' if (st or 1) < 0 else 'pos-step')
+        scope = dict(selcls='slice_dim', step=st, one_arg=len(args) == 1)
+        vs = []
+        try:
+            got = slice_dim(real, text)
+        except Exception as e:
+            vs.append(viol('in-domain-raises', sig, 'slice_dim(f, %r): %s: %r' % (text, type(e).__name__, e),
+                           exc=type(e).__name__, **scope))
+            return result('viol', vs, [before])
+        wf = lib.wellformed(got)
+        if wf:
+            vs.append(viol('not-wellformed', sig, 'slice_dim(f, %r): %s' % (text, '; '.join(wf)), **scope))
+            return result('viol', vs, [before])
+        snap = lib.snap(got, cls=rf.cls)
+        # the functional form appends to a history attribute: global attributes are not part of the hyperslab
+        diffs = rfile.file_diff(snap, exp, order=False, gattrs=False)
+        if diffs:
+            vs.append(viol('hyperslab-differs', sig, 'slice_dim(f, %r): %s' % (text, '; '.join(diffs)[:1200]),
+                           **scope))
+        ecanon = rfile.canon(exp)
+        return result('viol' if vs else 'ok-slice_dim', vs, [before, ecanon], 1,
+                      h64(before, text, ecanon) if ecanon != before else None,
+                      rfile.canon(snap) if not vs else None)
+
     def run_one(self, case):
+        if 'slice_dim' in case:
+            return self.run_slice_dim(case)
         isio = 'ioapi' in case
         if isio:
             from .. import ioapi_u
